@@ -68,3 +68,128 @@ Proof.
   - repeat constructor; unfold far; cbn; intros; try discriminate; unfold Model.Sfl.window_days; lia.
   - vm_compute. split; reflexivity.
 Qed.
+
+(* ==== At the level of the application (Model/App.v run_app: sort all rows,
+   split by security, expand global splits over the holders, run the ledger
+   per security with its opening position) ================================== *)
+From ACB Require Import Proofs.EraseRi Proofs.SortLayout Proofs.Layout Proofs.C16App.
+
+(* For every input [rows], opening positions [inits] giving security sec the
+   position (n, c), and [inits'] = the same without sec: running the
+   application on (purchase :: rows) with inits' yields the result of running
+   it on rows with inits, where the report of sec gets the purchase's row d in
+   front (d_post d = the opening position) and nothing else changes - every
+   figure of every row of every security, generated adjustments, rejections.
+   The purchase is a Buy by the default affiliate of n shares at total cost c
+   dated more than 30 days before every row of sec.  Rows of sec may belong to
+   other affiliates only and may contain global splits: the default affiliate
+   is among the holders a global split is expanded over in both runs.  (When
+   the near-split sanity check of replace_global_splits rejects the security,
+   it does so in both runs and no row is shown in either.)  Exact arithmetic;
+   the rows carry their read indices (the purchase has index 0; see
+   C16_app_opening_numbered for indices assigned by position). *)
+Theorem C16_app_opening_equals_purchase : forall sec day n c inits inits' rows,
+  (0 <= n)%Qc -> (0 <= c)%Qc ->
+  init_for inits sec = Some (opening_status n c) -> init_for inits' sec = None ->
+  (forall s, s <> sec -> init_for inits' s = init_for inits s) ->
+  In sec (securities (sort_txs rows)) ->
+  Forall (fun x => t_sec x = sec -> far (opening_buy sec day n c) x) rows ->
+  exists d res,
+    d_tx d = opening_buy sec day n c /\ d_post d = opening_status n c /\
+    run_app exact inits rows = Ok res /\
+    run_app exact inits' (opening_buy sec day n c :: rows)
+    = Ok (map (with_purchase sec d (global_split_check [] (txs_of_sec sec (sort_txs rows)))) res).
+Proof. exact C16App.app_opening_equals_purchase. Qed.
+Check C16_app_opening_equals_purchase : forall sec day n c inits inits' rows,
+  (0 <= n)%Qc -> (0 <= c)%Qc ->
+  init_for inits sec = Some (opening_status n c) -> init_for inits' sec = None ->
+  (forall s, s <> sec -> init_for inits' s = init_for inits s) ->
+  In sec (securities (sort_txs rows)) ->
+  Forall (fun x => t_sec x = sec -> far (opening_buy sec day n c) x) rows ->
+  exists d res,
+    d_tx d = opening_buy sec day n c /\ d_post d = opening_status n c /\
+    run_app exact inits rows = Ok res /\
+    run_app exact inits' (opening_buy sec day n c :: rows)
+    = Ok (map (with_purchase sec d (global_split_check [] (txs_of_sec sec (sort_txs rows)))) res).
+Print Assumptions C16_app_opening_equals_purchase.
+
+(* One security, global splits included, at the level of its sorted rows l
+   (the statement the application theorem is built on). *)
+Theorem C16_security_opening_equals_purchase : forall sec day n c l,
+  (0 <= n)%Qc -> (0 <= c)%Qc -> l <> [] ->
+  Forall (fun x => is_sell (t_act x) = true -> far (opening_buy sec day n c) x) l ->
+  exists d, d_tx d = opening_buy sec day n c /\ d_post d = opening_status n c /\
+    sec_result_of exact None (opening_buy sec day n c :: l)
+    = if global_split_check [] l
+      then (d :: fst (sec_result_of exact (Some (opening_status n c)) l),
+            snd (sec_result_of exact (Some (opening_status n c)) l))
+      else sec_result_of exact (Some (opening_status n c)) l.
+Proof. exact C16App.sec_result_opening. Qed.
+Check C16_security_opening_equals_purchase : forall sec day n c l,
+  (0 <= n)%Qc -> (0 <= c)%Qc -> l <> [] ->
+  Forall (fun x => is_sell (t_act x) = true -> far (opening_buy sec day n c) x) l ->
+  exists d, d_tx d = opening_buy sec day n c /\ d_post d = opening_status n c /\
+    sec_result_of exact None (opening_buy sec day n c :: l)
+    = if global_split_check [] l
+      then (d :: fst (sec_result_of exact (Some (opening_status n c)) l),
+            snd (sec_result_of exact (Some (opening_status n c)) l))
+      else sec_result_of exact (Some (opening_status n c)) l.
+Print Assumptions C16_security_opening_equals_purchase.
+
+(* Read indices assigned by position in the input ([number]): in the second
+   run the purchase is row 0 and every other row's index is one higher; the
+   report of the security is the same up to the read indices ([erase_result]),
+   with the purchase's row in front. *)
+Theorem C16_app_opening_numbered : forall sec day n c rows,
+  (0 <= n)%Qc -> (0 <= c)%Qc ->
+  Exists (fun x => t_sec x = sec) rows ->
+  Forall (fun x => t_sec x = sec -> far (opening_buy sec day n c) x) rows ->
+  let X := txs_of_sec sec (sort_txs (number rows)) in
+  let R := erase_result (sec_result_of exact (Some (opening_status n c)) X) in
+  exists d, d_tx d = opening_buy sec day n c /\ d_post d = opening_status n c /\
+    erase_result (sec_result_of exact None
+                    (txs_of_sec sec (sort_txs (number (opening_buy sec day n c :: rows)))))
+    = if global_split_check [] X then (d :: fst R, snd R) else R.
+Proof. exact C16App.sec_opening_numbered. Qed.
+Check C16_app_opening_numbered : forall sec day n c rows,
+  (0 <= n)%Qc -> (0 <= c)%Qc ->
+  Exists (fun x => t_sec x = sec) rows ->
+  Forall (fun x => t_sec x = sec -> far (opening_buy sec day n c) x) rows ->
+  let X := txs_of_sec sec (sort_txs (number rows)) in
+  let R := erase_result (sec_result_of exact (Some (opening_status n c)) X) in
+  exists d, d_tx d = opening_buy sec day n c /\ d_post d = opening_status n c /\
+    erase_result (sec_result_of exact None
+                    (txs_of_sec sec (sort_txs (number (opening_buy sec day n c :: rows)))))
+    = if global_split_check [] X then (d :: fst R, snd R) else R.
+Print Assumptions C16_app_opening_numbered.
+
+(* Non-vacuity: security 0 has rows of a second affiliate only and a global
+   2-for-1 split; security 1 is a bystander.  With the opening position the
+   split is expanded over {default, spouse} (5 rows: purchase, the two
+   splits, the sale at a superficial loss and its generated adjustment); with
+   the purchase the report has 6 rows, the last five being the same. *)
+Definition spouse16 := {| af_id := 1003; af_reg := false; af_dflt := false |}.
+Definition mka sec af glob sd ri a :=
+  {| t_sec := sec; t_td := sd; t_sd := sd; t_act := a; t_af := af; t_glob := glob; t_ri := ri |}.
+Definition ex_app_rows : list tx := [
+  mka 0 spouse16 false 100 1 (Buy (q 20 1) (q 10 1) (q 0 1) (q 1 1) (q 1 1));
+  mka 1 default_aff false 105 2 (Buy (q 5 1) (q 2 1) (q 0 1) (q 1 1) (q 1 1));
+  mka 0 default_aff true 120 3 (Split (q 2 1) (q 1 1) false);
+  mka 0 spouse16 false 130 4 (Sell (q 10 1) (q 4 1) (q 0 1) (q 1 1) (q 1 1) None)].
+Definition ex_inits : list (N * status) := [(0%N, opening_status (q 10 1) (q 100 1))].
+Example C16_app_nonvacuous :
+  In 0%N (securities (sort_txs ex_app_rows)) /\
+  Forall (fun x => t_sec x = 0%N -> far (opening_buy 0 60 (q 10 1) (q 100 1)) x) ex_app_rows /\
+  global_split_check [] (txs_of_sec 0 (sort_txs ex_app_rows)) = true /\
+  match run_app exact ex_inits ex_app_rows, run_app exact [] (opening_buy 0 60 (q 10 1) (q 100 1) :: ex_app_rows) with
+  | Ok [(0%N, (dsA, None)); (1%N, rA)], Ok [(0%N, (d :: dsB, None)); (1%N, rB)] =>
+      dsA = dsB /\ rA = rB /\ length dsA = 5%nat /\
+      map (fun x => af_id (t_af (d_tx x))) dsA = [1003; 1000; 1003; 1003; 1003]%N /\
+      map (fun x => s_sh (d_post x)) dsA = [q 20 1; q 20 1; q 40 1; q 30 1; q 30 1]
+  | _, _ => False
+  end.
+Proof.
+  split; [vm_compute; auto|]. split.
+  - repeat constructor; unfold far; cbn; intros; try discriminate; unfold Model.Sfl.window_days; lia.
+  - vm_compute. repeat split.
+Qed.
